@@ -195,5 +195,17 @@ Definition run_partials (fixed : bool) (kc : Z) (pat : entries) (nrows ncols : n
   VL [vreport (report_of st); vmatQ jfd;
       vtv (get_tol_violation (List.concat an) (List.concat jfd) atol rtol)].
 
+(* check_partials(step=[s1, s2, ...]): one fresh checking jacobian per step; the uncovered report
+   is the one of the last step *)
+Definition run_partials_steps (fixed : bool) (kc : Z) (pat : entries) (nrows ncols : nat) (thr : Q)
+           (fds : list (list (list Q))) (an : list (list Q)) (atol rtol : Q) : val :=
+  let k := kind_of_code kc in
+  let sts := map (fun fd => run_cols fixed k pat nrows thr (matrix_cols (matQ fd) ncols)
+                                     (init_state pat)) fds in
+  let jfds := map (fun st => dense_of pat (vals st) nrows ncols) sts in
+  VL [vreport (report_of (last sts (init_state pat)));
+      VL (map vmatQ jfds);
+      VL (map (fun jfd => vtv (get_tol_violation (List.concat an) (List.concat jfd) atol rtol)) jfds)].
+
 Definition run_errors (x ref : list (list Q)) (atol rtol : Q) : val :=
   vtv (get_tol_violation (List.concat x) (List.concat ref) atol rtol).
